@@ -53,6 +53,10 @@ def _run(job, fixed_path=None):
         shared = Path(tempfile.gettempdir()) / f'c10_seq_{uuid.uuid4().hex}.txt'
         _run(job[1], fixed_path=shared)
         return _run(job[2], fixed_path=shared)
+    if isinstance(job, tuple) and job and job[0] == 'seq2':
+        # two different contents on two different paths, one after the other in this process: the answer about the second is what is returned
+        _run(job[1])
+        return _run(job[2])
     params = job
     os.environ['GEOPHIRES_X_VERIF'] = '1'
     from geophires_x import GEOPHIRESv3
@@ -322,6 +326,16 @@ def evaluate(chk: core.Check, cases, n_seeded):
         chk.tag('run/ok')
         kept.append((name, r))
         check_one(chk, name, r, lines_out, pending)
+    byname = dict(kept)
+    if 'history/reference' in byname and 'history/after-unit-directive' in byname:
+        ra, rb = byname['history/reference']['result'], byname['history/after-unit-directive']['result']
+        chk.case(('history', 'headers'), True)
+        for cat in TABLE_TITLES:
+            ha, hb = (ra.get(cat) or [None])[0], (rb.get(cat) or [None])[0]
+            chk.tag('history/table-header/' + ('same' if ha == hb else 'differs'))
+            if ha != hb:
+                chk.fail(f'C10/history/table-header/{cat}', f'the client describes the columns of "{cat}" differently when another report was parsed before in the same process',
+                         {'parsed_first_in_a_process': ha, 'parsed_after_a_report_with_requested_units': hb})
     out = chk.driver(lines_out)
     for k, (name, cat, field, vu, rep) in enumerate(pending):
         key = ('j' if cat == 'json' else 'c') + str(k)
@@ -408,6 +422,13 @@ def extra_cases(chk: core.Check):
     a_ = geo.base_params(2, 1, 1, L=7, n=1)
     b_ = geo.base_params(3, 2, 9, L=12, n=2)
     out.append(('same-path-rewritten', ('seq', a_, b_)))   # second parse of a report path already parsed in this process
+    # what the client says about a report must not depend on the reports it parsed before: the same content parsed first in a process, and
+    # parsed after a report whose tables carry other (requested) units
+    ref_ = geo.base_params(2, 1, 1, L=6, n=1)
+    xdir = dict(geo.base_params(3, 1, 1, L=9, n=1))
+    xdir.update({'Units:Cumulative Revenue from Project': 'KUSD', 'Units:Annual Revenue from Project': 'KUSD', 'Units:Electricity Sale Price Model': 'USD/MWh'})
+    out.append(('history/reference', ref_))
+    out.append(('history/after-unit-directive', ('seq2', xdir, ref_)))
     bigrev = geo.base_params(2, 1, 1, L=30, n=1)
     bigrev.update({'Number of Production Wells': 16, 'Number of Injection Wells': 16, 'Starting Electricity Sale Price': 0.15, 'Ending Electricity Sale Price': 0.15, 'Gradient 1': 70})
     out.append(('billion-revenue', bigrev))
